@@ -105,6 +105,24 @@ func TestVerifC14Cached(t *testing.T) {
 						_, err := s.Exec(q)
 						return err
 					},
+					PExec: func(q string) error {
+						if c != nil {
+							st, err := s.PrepareCtx(c, q)
+							if err != nil {
+								return err
+							}
+							defer st.Close()
+							_, err = st.ExecCtx(c)
+							return err
+						}
+						st, err := s.Prepare(q)
+						if err != nil {
+							return err
+						}
+						defer st.Close()
+						_, err = st.Exec()
+						return err
+					},
 					Query: func(q string) error {
 						var out []string
 						var err error
